@@ -476,6 +476,45 @@ class World:
         if len(self.grids) < 5:
             self.add_grid(c, m.copy())
 
+    def op_clone_dtype(self):
+        """clone(dtype): with the grid's own dtype it is a plain clone (all
+        equal); with another dtype the converted cells are re-read (conversion
+        is not under test).  Either way the clone must be independent."""
+        cs = self.cs
+        g, m, gid = self.pick()
+        same = cs.flip("same_dtype", 55)
+        dtn = m.dtype.name if same else cs.choice("dtype", DTYPES)
+        same = same or np.dtype(dtn) == m.dtype
+        self.log.ev("clone_dtype", gid, dtn, same)
+        arg = getattr(np, dtn) if cs.flip("as_type", 70) or not same \
+            else g.dtype
+        with warnings.catch_warnings(), np.errstate(all="ignore"):
+            warnings.simplefilter("ignore")
+            try:
+                c = g.clone(arg)
+            except Exception as e:
+                raise Violation("clone_failed", f"grid#{gid}.clone({dtn}) "
+                                f"raised {e!r}", "clone_dtype")
+        if same:
+            check_grid(c, m, f"clone({dtn}) of grid#{gid}", "clone_dtype")
+            cm = m.copy()
+            self.ctx.hit("probe.clone_same_dtype")
+        else:
+            real = np.asarray(c.data)
+            if real.shape != (m.nrows, m.ncols) or \
+                    np.dtype(real.dtype) != np.dtype(dtn):
+                raise Violation("clone_dtype_wrong", f"grid#{gid}.clone({dtn})"
+                                f": data {real.shape} {real.dtype}",
+                                "clone_dtype")
+            # a converted clone keeps the no-data scalar of the old type, which
+            # need not be representable in the new one: outside the property's
+            # domain, so it does not join the pool
+            self.ctx.hit("probe.clone_other_dtype")
+            return
+        self.compared = True
+        if len(self.grids) < 5:
+            self.add_grid(c, cm)
+
     def op_clip(self):
         cs = self.cs
         g, m, gid = self.pick()
@@ -555,7 +594,23 @@ class World:
         self.log.ev("cat_new", self.nid, nrows, ncols)
         self.cats.append([cat, {"flowdir": fd.copy(), "outlet": None,
                                 "inlets": None, "area": None, "filled": None,
-                                "n": nrows * ncols}, self.nid])
+                                "n": nrows * ncols, "caller_grid": fg},
+                          self.nid])
+
+    def op_cat_caller_edits_grid(self):
+        """The caller goes on using the grid it built the catchment from; the
+        catchment holds a clone and must not notice."""
+        cs = self.cs
+        cat, cm, cid = self.cats[cs.draw("which", len(self.cats))]
+        fg = cm.get("caller_grid")
+        if fg is None:
+            return
+        self.log.ev("cat_caller_edits_grid", cid)
+        if cs.flip("fill", 50):
+            fg.fill(0)
+        else:
+            fg[cs.draw("cell", cm["n"])] = 0
+        self.ctx.hit("fault.caller_edits_grid_given_to_catchment")
 
     def op_cat_delineate(self):
         cs = self.cs
@@ -666,12 +721,14 @@ class World:
         if len(self.cats) < 2:
             self.nid += 1
             self.cats.append([c2, {k: (v.copy() if hasattr(v, "copy") else v)
-                                   for k, v in cm.items()}, self.nid])
+                                   for k, v in cm.items()
+                                   if k != "caller_grid"}, self.nid])
 
 
 OPS = [("new", 8, None), ("mutate", 10, "g"), ("save", 9, "g"),
        ("load", 9, "s"), ("foreign", 4, None), ("dict_roundtrip", 5, "g"),
-       ("clone", 6, "g"), ("clip", 6, "g"), ("chdir", 2, None),
+       ("clone", 6, "g"), ("clone_dtype", 5, "g"), ("clip", 6, "g"),
+       ("chdir", 2, None), ("cat_caller_edits_grid", 2, "c"),
        ("restart", 2, "s"), ("cat_new", 3, None), ("cat_delineate", 6, "c"),
        ("cat_dict", 5, "c"), ("cat_clone", 2, "c")]
 
